@@ -14,9 +14,11 @@ for p in $props; do
   /verif/bin/govc check --property $p --repo $wt --no-evidence --replay-dir /tmp/replays-seed > /tmp/run_seed_$name.$p.out 2>&1
   rc=$?
   nv=$(grep -c '^VIOLATION' /tmp/run_seed_$name.$p.out)
-  first=$(grep -m3 'undischarged' /tmp/run_seed_$name.$p.out | sed -E 's/^ *undischarged: //; s/ \[.*//' | cut -c1-200 | python3 -c "import sys,json;print(json.dumps([l.strip() for l in sys.stdin]))")
+  first=$(grep 'undischarged' /tmp/run_seed_$name.$p.out | grep -v 'status=unsupported' | grep -v '/COVER#' | head -3 | sed -E 's/^ *undischarged: //; s/ \[.*//' | cut -c1-200 | python3 -c "import sys,json;print(json.dumps([l.strip() for l in sys.stdin]))")
+  nuns=$(grep 'undischarged' /tmp/run_seed_$name.$p.out | grep -c 'status=unsupported')
+  why=$(grep -m1 'status=unsupported' /tmp/run_seed_$name.$p.out | sed -E 's/.*status=unsupported //' | cut -c1-160 | python3 -c "import sys,json;print(json.dumps(sys.stdin.read().strip()))")
   echo "$name $p exit=$rc violations=$nv"
-  out="$out{\"property\":\"$p\",\"exit\":$rc,\"violations\":$nv,\"first_failed_obligations\":$first},"
+  out="$out{\"property\":\"$p\",\"exit\":$rc,\"violations\":$nv,\"unsupported\":$nuns,\"unsupported_reason\":$why,\"first_failed_obligations\":$first},"
 done
 python3 - "$seed" "[${out%,}]" <<'PY'
 import json,sys,subprocess
